@@ -7,9 +7,13 @@ import json
 import os
 from collections import Counter
 
-import vlib
+from concurrent.futures import ThreadPoolExecutor
 
-TIERS = {"quick": {"names": ("g1", "g2"), "MaxTok": 4}, "thorough": {"names": ("g1", "g2", "g3"), "MaxTok": 5}}
+import vlib
+from pipes import ext1
+from pipes.lock import _split
+
+TIERS = {"quick": {"names": ("g1", "g2"), "MaxTok": 4}, "thorough": {"names": ("g1", "g2", "g3"), "MaxTok": 4}}
 ALL_OPS = ["make_lv", "make_rv", "make_guide", "release", "move_ctor", "dtor", "block"]
 KINDS = ("functor", "fptr")
 PROBES = {1: "scope_exit<F&> (exit function held by reference): move construction"}
@@ -55,39 +59,43 @@ def model(tier, rep):
     return p, sc, T
 
 
-def _side(impl, exe, script, nscripts, ncalls, T, tier, kinds):
-    tasks, outs = [], []
-    for k in kinds:
+def _side(impl, exe, sc, T, tier, kinds):
+    ncalls = sum(len(s) for s in sc)
+
+    def one(k):
         tp = os.path.join(vlib.workdir("traces"), "scope_%s_%s_%s.ndjson" % (impl, k, tier))
-        tasks.append(([exe, "replay", k, str(len(T["names"])), str(T["MaxTok"]), script], tp))
-        outs.append(tp)
-    res = vlib.run_parallel(tasks, par=2)
-    unsupported = sorted({l for _, err in res for l in err.splitlines() if l.startswith("UNSUPPORTED")})
-    for tp in outs:
-        got = sum(1 for _ in open(tp, "rb"))
-        if not unsupported and got != nscripts + ncalls:
-            raise vlib.ModelFailure("scope driver (%s): %d lines for %d scripts with %d calls" % (impl, got, nscripts, ncalls))
-    tv = vlib.tv_parallel("ScopeTrace.tla", "ScopeTrace.cfg", outs, "scope_tv_%s_%s" % (impl, tier), par=3, heap="1g")
-    return tv, unsupported
+        r = ext1.replay(lambda sp: [exe, "replay", k, str(len(T["names"])), str(T["MaxTok"]), sp], sc, tp,
+                        "scope_%s_%s_%s" % (impl, k, tier), chunk=20000, par=2)
+        return tp, r
+    with ThreadPoolExecutor(max_workers=3) as ex:
+        res = list(ex.map(one, kinds))
+    outs = [tp for tp, _ in res]
+    unsupported = sorted({l for _, r in res for l in r["stderr"] if l.startswith("UNSUPPORTED")})
+    ntraps = sum(len(r["traps"]) for _, r in res)
+    for tp, r in res:                                   # vacuity guard: one event per call, two marker lines per script
+        if not unsupported and not r["traps"] and r["lines"] != 2 * len(sc) + ncalls:
+            raise vlib.ModelFailure("scope driver (%s): %d lines for %d scripts with %d calls" % (impl, r["lines"], len(sc), ncalls))
+    parts = outs if tier == "quick" else [q for tp in outs for q in _split(tp, 4)]      # cut at script boundaries
+    tv = vlib.tv_parallel("ScopeTrace.tla", "ScopeTrace.cfg", parts, "scope_tv_%s_%s" % (impl, tier), par=3 if tier == "quick" else 4,
+                          heap="1g" if tier == "quick" else "2g")
+    return tv, unsupported, ntraps
 
 
 def pipeline(tier, rep, calibrate=None):
-    from concurrent.futures import ThreadPoolExecutor
     if calibrate is None:
         calibrate = os.environ.get("VERIF_CALIBRATE", "1") != "0"
     have = probes()
     script, sc, T = model(tier, rep)
-    ncalls = sum(len(s) for s in sc)
     kinds = KINDS + (("fref",) if have[1] else ())
     jobs = [dict(src="scope_driver.cpp", out="scope_etl", flags=["-DSCOPE_FREF=%d" % have[1]])]
     if calibrate:
         jobs.append(dict(src="scope_driver.cpp", out="scope_std", flags=["-DVH_STD", "-DSCOPE_FREF=1"], include_repo=False))
     bins = vlib.build_many(jobs)
     with ThreadPoolExecutor(max_workers=2) as ex:
-        fe = ex.submit(_side, "etl", bins[0], script, len(sc), ncalls, T, tier, kinds)
-        fs = ex.submit(_side, "std", bins[1], script, len(sc), ncalls, T, tier, KINDS + ("fref",)) if calibrate else None
-        tv, unsup = fe.result()
-        ctv, cunsup = fs.result() if fs else (None, [])
+        fe = ex.submit(_side, "etl", bins[0], sc, T, tier, kinds)
+        fs = ex.submit(_side, "std", bins[1], sc, T, tier, KINDS + ("fref",)) if calibrate else None
+        tv, unsup, ntraps = fe.result()
+        ctv, cunsup, _ = fs.result() if fs else (None, [], 0)
     if calibrate:
         if ctv["deviations"]:
             d = ctv["deviations"][0]
@@ -98,5 +106,6 @@ def pipeline(tier, rep, calibrate=None):
         rep.cov["modules"]["Scope"]["calibration_events_ref"] = ctv["events"]
     rep.add_tv("Scope", tv, len(sc) * len(kinds))
     rep.cov["modules"]["Scope"]["not_drivable"] = unsup + ["%s: does not compile" % PROBES[n] for n in sorted(PROBES) if not have[n]]
+    rep.cov["modules"]["Scope"]["crashes_contained"] = ntraps
     rep.cov["modules"]["Scope"]["probes"] = {PROBES[n]: have[n] for n in PROBES}
     return tv
